@@ -560,6 +560,52 @@ template<class F> static void add_overloads(std::vector<Task>& tasks, const Conf
   Task t; t.name = scen; t.fn = [scen, &cfg](Report& rep) { typed_overloads<F>(rep, cfg, scen); }; tasks.push_back(t);
 }
 
+// array-of-doubles A-not-B with operands of DIFFERENT column counts (B contributes keys only): the result has A's number of values
+// and A's summaries, also after a round trip. Every pair of subsets of a 6-key universe x {ordered, unordered} x column counts.
+static void aod_anotb_mixed_columns(Report& rep, const Config& cfg, const std::string& scen) {
+  if (!cfg.replay_scenario.empty() && cfg.replay_scenario != scen) return;
+  typedef array<double> Arr; typedef update_array_tuple_sketch<Arr> UA; typedef compact_array_tuple_sketch<Arr> CA;
+  const int NK = 6; const int cols[3][2] = {{3, 1}, {1, 3}, {2, 2}}; uint64_t n = 0;
+  for (int ci = 0; ci < 3; ++ci) for (unsigned ma = 1; ma < (1u << NK); ++ma) for (unsigned mb = 0; mb < (1u << NK); ++mb) for (int ord = 0; ord < 2; ++ord) {
+    const int na = cols[ci][0], nb = cols[ci][1];
+    std::string hist = "colsA" + str(na) + "/colsB" + str(nb) + "/A" + str(ma) + "/B" + str(mb) + (ord ? "/ordered" : "/unordered");
+    if (!cfg.replay_history.empty() && cfg.replay_history != hist) continue;
+    if (!journal(scen, hist)) continue;
+    UA a = UA::builder(default_array_tuple_update_policy<Arr>((uint8_t)na)).set_lg_k(5).build(), b = UA::builder(default_array_tuple_update_policy<Arr>((uint8_t)nb)).set_lg_k(5).build();
+    update_theta_sketch ta = update_theta_sketch::builder().set_lg_k(5).build(), tb = update_theta_sketch::builder().set_lg_k(5).build();
+    std::map<uint64_t, std::vector<double> > want;   // hash -> A's summary
+    for (int k = 0; k < NK; ++k) {
+      if (ma & (1u << k)) { std::vector<double> v((size_t)na); for (int j = 0; j < na; ++j) v[(size_t)j] = 10 * k + j + 1; a.update((uint64_t)k, v); ta.update((uint64_t)k); }
+      if (mb & (1u << k)) { std::vector<double> v((size_t)nb, 7.0); b.update((uint64_t)k, v); tb.update((uint64_t)k); }
+    }
+    for (auto it = a.begin(); it != a.end(); ++it) { std::vector<double> v; for (uint8_t j = 0; j < (*it).second.size(); ++j) v.push_back((*it).second[j]); want[(*it).first] = v; }
+    Ctx c(rep, scen, hist);
+    array_tuple_a_not_b<Arr> op; CA r = op.compute(a, b, ord == 1);
+    theta_a_not_b top; compact_theta_sketch tr = top.compute(ta, tb, true);
+    for (int form = 0; form < 2; ++form) try {
+      std::stringstream ss(std::ios::in | std::ios::out | std::ios::binary);
+      if (form == 1) r.serialize(ss);
+      CA x = form == 0 ? CA(r) : CA::deserialize(ss);
+      const std::string f = form ? "restored:" : "result:";
+      c.eq(f + "num_values==A's", (int)x.get_num_values(), na);
+      c.eq(f + "retained==theta-a-not-b", x.get_num_retained(), tr.get_num_retained());
+      bool ok = true; std::string why;
+      for (auto it = x.begin(); it != x.end(); ++it) {
+        std::map<uint64_t, std::vector<double> >::iterator w = want.find((*it).first);
+        if (w == want.end()) { ok = false; why = "a key that A does not hold"; break; }
+        if ((int)(*it).second.size() != na) { ok = false; why = "summary with " + str((int)(*it).second.size()) + " values"; break; }
+        for (int j = 0; j < na; ++j) if ((*it).second[(uint8_t)j] != w->second[(size_t)j]) { ok = false; why = "summary differs from A's"; }
+      }
+      c.ok(f + "summaries-are-A's", ok, why);
+    } catch (const std::exception& e) { c.fail(form ? "restored:unexpected-exception" : "result:unexpected-exception", e.what()); }
+    rep.flush_ctx_fails(c.fails, scen, hist); ++n;
+  }
+  journal_clear();
+  rep.evaluations += n; rep.states += n; rep.transitions += n; rep.traces += n;
+  rep.scenarios.push_back(scen + ": " + str(n) + " (column counts, A subset, B subset, ordered) cases");
+  rep.outcome("aod-anotb|mixed-columns");
+}
+
 // E1 on the update sketch: tiny configuration, optional seeded start (the last `seeded` keys already offered once)
 template<class F> static void add_upd_bfs(std::vector<Task>& tasks, const Config& cfg, int lg, RF rf, float p, uint64_t seed, size_t nkeys, bool types, size_t nvals, size_t seeded, int depth, size_t max_states) {
   UpdSys<F> sys; sys.lg_nom = (uint8_t)lg; sys.rf = rf; sys.p = p; sys.seed = seed; sys.legal = false; sys.keys = pick_keys(nkeys, seed, types); sys.vals = values(nvals);
@@ -641,6 +687,7 @@ int main(int argc, char** argv) {
   add_upd_bfs<FArr<1> >(tasks, cfg, 1, RF::X1, 0.5f, DS, 8, false, 2, 0, q ? 6 : 7, 3000000);
   add_upd_bfs<FArr<1> >(tasks, cfg, 2, RF::X2, 1.0f, DS, 10, false, 2, 5, q ? 4 : 5, 3000000);
   add_overloads<FI64>(tasks, cfg); add_overloads<FInst>(tasks, cfg); add_overloads<FArr<3> >(tasks, cfg);
+  { Task t; t.name = "anotb/aod-mixed-columns"; std::string nm = t.name; t.fn = [nm, &cfg](Report& rep) { aod_anotb_mixed_columns(rep, cfg, nm); }; tasks.push_back(t); }
   // ---- Part A, E2 ----
   add_upd_paths<FI64>(tasks, cfg, 5, true, RF::X8, 1.0f, 136, 1, q ? 5 : 2, q ? 5 : 7);
   add_upd_paths<FI64>(tasks, cfg, 5, true, RF::X1, 0.5f, q ? 150 : 270, 1, 5, q ? 5 : 7);
